@@ -248,21 +248,21 @@ theorem slash_rewards_shown {c c' : Chain} {v : String} {p : Dec} (hi : SInv c.s
         simp only at hst
         unfold applySlash at hst
         split at hst
-        · simp only [Outcome.ok.injEq] at hst; subst hst
-          -- everything of `v` was removed: no record remains
-          exfalso
-          simp only [get?_removeAll, true_and] at hrec
-          split at hrec
-          · simp at hrec
-          · rename_i hnot
-            cases hg : get? s1.stakes (d, v) with
-            | none => simp [hg] at hrec
-            | some sh =>
-              have hi1 := SInv_updR hi (updR_ok h1)
-              obtain ⟨vi2, hv2, hd⟩ := hi1.stakes_listed d v sh hg
-              rw [hvi1] at hv2; simp only [Option.some.injEq] at hv2; subst hv2
-              exact hnot hd
         · split at hst
+          · simp only [Outcome.ok.injEq] at hst; subst hst
+            -- everything of `v` was removed: no record remains
+            exfalso
+            simp only [get?_removeAll, true_and] at hrec
+            split at hrec
+            · simp at hrec
+            · rename_i hnot
+              cases hg : get? s1.stakes (d, v) with
+              | none => simp [hg] at hrec
+              | some sh =>
+                have hi1 := SInv_updR hi (updR_ok h1)
+                obtain ⟨vi2, hv2, hd⟩ := hi1.stakes_listed d v sh hg
+                rw [hvi1] at hv2; simp only [Option.some.injEq] at hv2; subst hv2
+                exact hnot hd
           · simp only [Outcome.ok.injEq] at hst; subst hst
             refine ⟨vo, vi, _, hvo, hvi, get?_set_self _ _ _, ?_⟩
             rw [← hsame, hup]
@@ -272,7 +272,7 @@ theorem slash_rewards_shown {c c' : Chain} {v : String} {p : Dec} (hi : SInv c.s
             cases get? s1.stakes (d, v) with
             | none => rfl
             | some sh => simp only [Option.map_some, Option.getD_some]; split <;> rfl
-          · simp at hst
+        · simp at hst
       · simp at hst
       · simp at hst
       · simp at hst
